@@ -48,14 +48,24 @@ CLAIMED['C01'] = dict(
          'illegal-call table from the docstrings), incl. sequences dense in half-failing datastore writes.'),
    note=SVC_NOTE, technique='Rocq proof (tracking relation + loop invariant over handler programs; symbolic execution) + trace-level correspondence', design='5/C01')
 CLAIMED['C02'] = dict(
-   text=('Theorems (closed under the global context): id allocation max+1 always succeeds, is larger than every id present and raises the '
-         'maximum by one (C02_fresh_ids, C02_max_id_bounds_all); an unfinished operation of the same worker is returned unchanged; STICKY: a '
-         'worker that already holds at least `count` ACTIVE trials and has no unfinished operation gets exactly its first `count` ACTIVE '
-         'trials again in a finished operation without error, and neither trials nor study change (C02_sticky, for every state, count and '
-         'Pythia answer; its numbering hypothesis is an invariant of all reachable states: C02_sticky_on_reachable_states). PARTIAL: the three-source order (own ACTIVE, queued REQUESTED, new) and the queueing of surplus suggestions are '
-         'decided by correspondence + monitor over generated histories with over- and under-delivering algorithms and long studies (ids '
-         'beyond 10, 20), on RAM and SQLite.'),
-   note=SVC_NOTE, technique='Rocq proof (symbolic execution of the SuggestTrials program, list lemmas on id allocation) + trace-level correspondence + monitor', design='5/C02')
+   text=('Theorems (closed under the global context), for every state, worker, count and Pythia answer. THE FUNCTIONAL THEOREM '
+         '(C02_suggest_functional): on a state where the study is active, the worker has no unfinished operation, its operations are '
+         'numbered 1..m and trial ids are unique, SuggestTrials ends normally with a finished operation whose trials are all ACTIVE and '
+         'owned by the asking worker; unless it carries the error flag it returns exactly min(count, own ACTIVE + queued REQUESTED + '
+         'delivered) trials, namely the first `count` of: own ACTIVE trials, then queued REQUESTED trials re-assigned to the worker, then '
+         'new trials numbered max+1, max+2, ...; every trial stored before is still stored and unchanged up to metadata unless it was '
+         'REQUESTED and has been assigned to the asking worker - no ACTIVE trial changes owner. SURPLUS (C02_surplus_queued_and_ids_fresh): '
+         'when own + queued do not cover the request, the stored trials afterwards are the old ones followed by exactly one new trial per '
+         'suggestion, those not handed out REQUESTED and unowned, with ids max+1 .. max+|suggestions| in creation order, each larger '
+         'than every earlier id (C02_new_ids_above, C02_new_ids_increase). The numbering and unique-id hypotheses are invariants of every '
+         'reachable state (C02_ready_on_reachable_states). STICKY (C02_sticky, ..._on_reachable_states): a worker holding at least '
+         '`count` ACTIVE trials gets exactly its first `count` again and neither trials nor study change; an unfinished operation is '
+         'returned unchanged. Proved by characterising the three loops of the handler program (assign / create / remain) and composing '
+         'them into one function of the stored trials (sg_spec), whose consequences are list lemmas. PARTIAL: that the handler program '
+         'is the code (incl. the order in which each datastore lists trials) is decided by the trace-level correspondence + monitor over '
+         'generated histories with over- and under-delivering algorithms and long studies (ids beyond 10, 20) on RAM and SQLite; '
+         'client-side polling by the monitor only.'),
+   note=SVC_NOTE, technique='Rocq proof (loop characterisation + functional specification of the SuggestTrials program, invariants over reachable states) + trace-level correspondence + monitor', design='5/C02')
 CLAIMED['C06'] = dict(
    text=('Theorems (closed under the global context): the failure continuation finish_op always ends the RPC with a DONE operation carrying '
          'the error and stores exactly it (C06_failure_is_reported_and_stored); a worker is answered without reaching the algorithm only from a '
